@@ -270,116 +270,6 @@ theorem optRel_eq (p : Prim) (null : Nat) (r : Rel) (a b : Nat) :
   rw [isNull_eq, isNull_eq, denote_rel]
   rfl
 
-/-- the six hand-written operators of `optional_base` on comparison classes -/
-def opsC (ln : Class) (r : Rel) (la lb : Class) : Bool :=
-  match r with
-  | .eq => feq la lb
-  | .ne => fne la lb
-  | .lt => fne lb ln && (!fne la ln || flt la lb)
-  | .le => !fne la ln || (fne lb ln && fle la lb)
-  | .gt => fne la ln && (!fne lb ln || fgt la lb)
-  | .ge => !fne lb ln || (fne la ln && fge la lb)
-
-/-- with a null that is a number, the six operators implement the documented rules -/
-theorem ops_core (n : Int) (r : Rel) (la lb : Class) :
-    opsC (.num n) r la lb = optRelC (.num n) r la lb := by
-  cases la with
-  | nan =>
-    cases lb with
-    | nan => cases r <;> simp [opsC, optRelC, isNullC, relNat, frel, feq, fne, flt, fle, fgt, fge]
-    | num y =>
-      by_cases hy : y = n
-      · subst hy
-        cases r <;> simp [opsC, optRelC, isNullC, relNat, frel, feq, fne, flt, fle, fgt, fge]
-      · have hy' : ¬ n = y := fun e => hy e.symm
-        have hyb : (y == n) = false := by simpa using hy
-        have hyb' : (n == y) = false := by simpa using hy'
-        cases r <;> simp [opsC, optRelC, isNullC, relNat, frel, feq, fne, flt, fle, fgt, fge, hy, hy', hyb, hyb']
-  | num x =>
-    cases lb with
-    | nan =>
-      by_cases hx : x = n
-      · subst hx
-        cases r <;> simp [opsC, optRelC, isNullC, relNat, frel, feq, fne, flt, fle, fgt, fge]
-      · have hx' : ¬ n = x := fun e => hx e.symm
-        have hxb : (x == n) = false := by simpa using hx
-        have hxb' : (n == x) = false := by simpa using hx'
-        cases r <;> simp [opsC, optRelC, isNullC, relNat, frel, feq, fne, flt, fle, fgt, fge, hx, hx', hxb, hxb']
-    | num y =>
-      by_cases hx : x = n
-      · subst hx
-        by_cases hy : y = x
-        · subst hy
-          cases r <;> simp [opsC, optRelC, isNullC, relNat, frel, feq, fne, flt, fle, fgt, fge]
-        · have hy' : ¬ x = y := fun e => hy e.symm
-          have hyb : (y == x) = false := by simpa using hy
-          have hyb' : (x == y) = false := by simpa using hy'
-          cases r <;> simp [opsC, optRelC, isNullC, relNat, frel, feq, fne, flt, fle, fgt, fge, hy, hy', hyb, hyb']
-      · have hx' : ¬ n = x := fun e => hx e.symm
-        have hxb : (x == n) = false := by simpa using hx
-        have hxb' : (n == x) = false := by simpa using hx'
-        by_cases hy : y = n
-        · subst hy
-          cases r <;> simp [opsC, optRelC, isNullC, relNat, frel, feq, fne, flt, fle, fgt, fge, hx, hx', hxb, hxb']
-        · have hy' : ¬ n = y := fun e => hy e.symm
-          have hyb : (y == n) = false := by simpa using hy
-          have hyb' : (n == y) = false := by simpa using hy'
-          cases r <;> simp [opsC, optRelC, isNullC, relNat, frel, feq, fne, flt, fle, fgt, fge, hx, hx', hxb, hxb', hy, hy', hyb, hyb']
-
-/-- `operator<=>` of `optional_base` followed by the comparison with 0, on
-    numbers (integers are never NaN) -/
-def shipC (n : Int) (r : Rel) (x y : Int) : Bool :=
-  let ha := fne (.num x) (.num n)
-  let hb := fne (.num y) (.num n)
-  Ord3.test r (if ha && hb then fcmp3 (.num x) (.num y) else boolCmp3 ha hb)
-
-theorem ship_core (n : Int) (r : Rel) (hr : r.isOrdering = true) (x y : Int) :
-    shipC n r x y = optRelC (.num n) r (.num x) (.num y) := by
-  by_cases hx : x = n
-  · subst hx
-    by_cases hy : y = x
-    · subst hy
-      cases r <;> simp [Rel.isOrdering] at hr <;>
-        simp [shipC, optRelC, isNullC, relNat, frel, feq, fne, boolCmp3, Ord3.test, Ord3.lt0, Ord3.le0,
-          Ord3.gt0, Ord3.ge0]
-    · have hy' : ¬ x = y := fun e => hy e.symm
-      have hyb : (y == x) = false := by simpa using hy
-      have hyb' : (x == y) = false := by simpa using hy'
-      cases r <;> simp [Rel.isOrdering] at hr <;>
-        simp [shipC, optRelC, isNullC, relNat, frel, feq, fne, boolCmp3, Ord3.test, Ord3.lt0, Ord3.le0,
-          Ord3.gt0, Ord3.ge0, hy, hy', hyb, hyb']
-  · have hx' : ¬ n = x := fun e => hx e.symm
-    have hxb : (x == n) = false := by simpa using hx
-    have hxb' : (n == x) = false := by simpa using hx'
-    by_cases hy : y = n
-    · subst hy
-      cases r <;> simp [Rel.isOrdering] at hr <;>
-        simp [shipC, optRelC, isNullC, relNat, frel, feq, fne, boolCmp3, Ord3.test, Ord3.lt0, Ord3.le0,
-          Ord3.gt0, Ord3.ge0, hx, hx', hxb, hxb']
-    · have hy' : ¬ n = y := fun e => hy e.symm
-      have hyb : (y == n) = false := by simpa using hy
-      have hyb' : (n == y) = false := by simpa using hy'
-      have h3 : x < y ∨ x = y ∨ y < x := by omega
-      rcases h3 with h | h | h
-      · have h1 : ¬ x = y := by omega
-        have h2 : ¬ y < x := by omega
-        have h4 : x ≤ y := by omega
-        have h5 : ¬ y ≤ x := by omega
-        cases r <;> simp [Rel.isOrdering] at hr <;>
-          simp [shipC, optRelC, isNullC, frel, feq, fne, flt, fle, fgt, fge, fcmp3, Ord3.test, Ord3.lt0,
-            Ord3.le0, Ord3.gt0, Ord3.ge0, hx, hx', hxb, hxb', hy, hy', hyb, hyb', h, h1, h2, h4, h5]
-      · subst h
-        cases r <;> simp [Rel.isOrdering] at hr <;>
-          simp [shipC, optRelC, isNullC, frel, feq, fne, flt, fle, fgt, fge, fcmp3, Ord3.test, Ord3.lt0,
-            Ord3.le0, Ord3.gt0, Ord3.ge0, hx, hx', hxb, hxb']
-      · have h1 : ¬ x = y := by omega
-        have h2 : ¬ x < y := by omega
-        have h4 : y ≤ x := by omega
-        have h5 : ¬ x ≤ y := by omega
-        cases r <;> simp [Rel.isOrdering] at hr <;>
-          simp [shipC, optRelC, isNullC, frel, feq, fne, flt, fle, fgt, fge, fcmp3, Ord3.test, Ord3.lt0,
-            Ord3.le0, Ord3.gt0, Ord3.ge0, hx, hx', hxb, hxb', hy, hy', hyb, hyb', h, h1, h2, h4, h5]
-
 /-- the relations derived from the defaulted `<=>`/`==` of `required_base` -/
 def reqShipC (r : Rel) (la lb : Class) : Bool :=
   match r with
@@ -416,5 +306,65 @@ theorem req_ship_core (r : Rel) (la lb : Class) : reqShipC r la lb = frel r la l
         cases r <;>
           simp [reqShipC, frel, feq, fne, flt, fle, fgt, fge, fcmp3, Ord3.test, Ord3.lt0, Ord3.le0, Ord3.gt0,
             Ord3.ge0, h, h1, h2, h4, h5]
+
+/-! ### `optional_base` on comparison classes -/
+
+/-- `has_value()` on classes -/
+def hasC (ln lv : Class) : Bool := fne lv ln && !(fne lv lv && fne ln ln)
+
+/-- `has_value()` is "not null" for every null value, NaN included -/
+theorem hasC_eq (ln lv : Class) : hasC ln lv = !isNullC ln lv := by
+  cases ln with
+  | nan => cases lv <;> simp [hasC, isNullC, fne, feq]
+  | num n =>
+    cases lv with
+    | nan => simp [hasC, isNullC, fne, feq]
+    | num x =>
+      by_cases hx : x = n
+      · subst hx; simp [hasC, isNullC, fne, feq]
+      · have hx' : ¬ n = x := fun e => hx e.symm
+        have hxb : (x == n) = false := by simpa using hx
+        have hxb' : (n == x) = false := by simpa using hx'
+        simp [hasC, isNullC, fne, feq, hxb, hxb']
+
+/-- `operator==` and the five other hand-written operators on classes -/
+def opsC (ln : Class) (r : Rel) (la lb : Class) : Bool :=
+  let ha := hasC ln la
+  let hb := hasC ln lb
+  let eq := if ha && hb then feq la lb else ha == hb
+  match r with
+  | .eq => eq
+  | .ne => !eq
+  | .lt => hb && (!ha || flt la lb)
+  | .le => !ha || (hb && fle la lb)
+  | .gt => ha && (!hb || fgt la lb)
+  | .ge => !hb || (ha && fge la lb)
+
+/-- the six operators implement the documented rules, for every null value -/
+theorem ops_core (ln : Class) (r : Rel) (la lb : Class) :
+    opsC ln r la lb = optRelC ln r la lb := by
+  unfold opsC optRelC
+  simp only [hasC_eq]
+  cases isNullC ln la <;> cases isNullC ln lb <;> cases r <;>
+    simp [relNat, frel, fne]
+
+/-- `operator<=>` followed by the comparison with 0 -/
+def shipC (ln : Class) (r : Rel) (la lb : Class) : Bool :=
+  let ha := hasC ln la
+  let hb := hasC ln lb
+  Ord3.test r (if ha && hb then fcmp3 la lb else boolCmp3 ha hb)
+
+theorem ship_core (ln : Class) (r : Rel) (hr : r.isOrdering = true) (la lb : Class) :
+    shipC ln r la lb = optRelC ln r la lb := by
+  have hreq : Ord3.test r (fcmp3 la lb) = frel r la lb := by
+    have h := req_ship_core r la lb
+    cases r <;> simp [Rel.isOrdering] at hr <;> simpa [reqShipC] using h
+  unfold shipC optRelC
+  simp only [hasC_eq]
+  cases isNullC ln la <;> cases isNullC ln lb
+  · simp [hreq]
+  all_goals
+    cases r <;> simp [Rel.isOrdering] at hr <;>
+      simp [relNat, boolCmp3, Ord3.test, Ord3.lt0, Ord3.le0, Ord3.gt0, Ord3.ge0]
 
 end Sbepp.Lemmas.Optional
